@@ -9,16 +9,20 @@ def walker(s, ctx=None, tolerant=False, **kw):
     return LatexWalker(s, tolerant_parsing=tolerant, **kw)
 
 
-def parse(s, ctx=None, tolerant=False, monitored=True, **kw):
+def parse(s, ctx=None, tolerant=False, monitored=True, parsing_state_kw=None, **kw):
     """Returns (walker, nodelist).  Raises whatever the parse raises
-    (monitor.NonTermination is a BaseException)."""
+    (monitor.NonTermination is a BaseException).  parsing_state_kw: fields of the parsing state
+    the parse starts in (made by the walker's make_parsing_state())."""
     from pylatexenc.latexnodes.parsers import LatexGeneralNodesParser
     w = walker(s, ctx, tolerant, **kw)
+    pkw = {}
+    if parsing_state_kw:
+        pkw['parsing_state'] = w.make_parsing_state(**parsing_state_kw)
     if monitored:
         with monitor.budget(len(s)):
-            nl, _ = w.parse_content(LatexGeneralNodesParser())
+            nl, _ = w.parse_content(LatexGeneralNodesParser(), **pkw)
     else:
-        nl, _ = w.parse_content(LatexGeneralNodesParser())
+        nl, _ = w.parse_content(LatexGeneralNodesParser(), **pkw)
     return w, nl
 
 
